@@ -69,9 +69,9 @@ def judge_one(mon: Mon, S, cc, bban, table, tag):
         mon.viol("bban_check_success_not_true", w, True, o_bb.brief())
     if o_val.ok and o_val.value is not True:
         mon.viol("validate_success_not_true", w, True, o_val.brief())
-    if not o_bb.ok and judge.is_lib_exc(o_bb.exc) and o_bb.exc_name not in ("InvalidBBANChecksum", "InvalidAccountCode"):
+    if not o_bb.ok and judge.is_lib_exc(o_bb.exc) and not o_bb.is_a("InvalidBBANChecksum", "InvalidAccountCode"):
         mon.viol(f"bban_check_failure_class:{o_bb.exc_name}", w, "InvalidBBANChecksum", o_bb.brief())
-    if not o_flag.ok and judge.is_lib_exc(o_flag.exc) and o_flag.exc_name not in ("InvalidBBANChecksum", "InvalidAccountCode"):
+    if not o_flag.ok and judge.is_lib_exc(o_flag.exc) and not o_flag.is_a("InvalidBBANChecksum", "InvalidAccountCode"):
         mon.viol(f"national_failure_class:{o_flag.exc_name}", w, "InvalidBBANChecksum", o_flag.brief())
     if want == R.DONT_CARE:
         return
@@ -178,7 +178,16 @@ def run_listed(shard, mon, S, table):
 
 def run_other(shard, mon, S, table):
     sz = SIZES[shard["tier"]]
+    try:
+        from schwifty.checksum import algorithms  # noqa: PLC0415
+    except Exception:  # noqa: BLE001
+        algorithms = {}
     for cc in shard["countries"]:
+        if f"{cc}:default" in algorithms:
+            # the library knows a national algorithm the reference does not: not judged, reported as uncovered
+            mon.tally("countries_with_algorithm_unknown_to_reference")
+            mon.notes.setdefault("uncovered_algorithms", []).append(cc)
+            continue
         spec = table[cc]
         rng = env.rng("C06o", cc)
         for i in range(sz["other"]):
